@@ -163,6 +163,15 @@ def main(check_name, tier, replay=None):
     baseline_mode = tier == "baseline"
     plan = mod.plan("thorough" if baseline_mode else tier, seed, complete=baseline_mode)
     items = list(plan["items"])
+    # developer aid: VERIF_PARTIAL=<substring> with tier "baseline" re-runs only the universe documents that
+    # contain the substring and patches their entries into the existing baseline (used after a repair in
+    # /repo that can only affect such documents, e.g. 'pyml' for the pragma regeneration fixes)
+    partial = os.environ.get("VERIF_PARTIAL") if baseline_mode else None
+    if partial:
+        from vf import universe as _U
+
+        items = [it for it in items if isinstance(it, str) and it[:1] == "Z" and partial in _U.case_doc(it)]
+        print(f"partial baseline: {len(items)} universe documents contain {partial!r}")
     canon = getattr(mod, "canon_signature", None)
     base = findings.load_baseline(mod.BASELINE, canon) if getattr(mod, "BASELINE", None) else None
     base_b = findings.load_baseline(mod.BASELINE + ".B", canon) if getattr(mod, "BASELINE", None) else None
@@ -221,6 +230,15 @@ def main(check_name, tier, replay=None):
             from vf.checks import parserlevel as _PL2
 
             bname, uh = mod.BASELINE + "." + group, _PL2.GROUP_MODULES[group].content_hash()
+        if partial:
+            old = findings.load_baseline(bname)
+            merged = {k: v for k, v in old["map"].items() if k not in set(items)}
+            merged.update(case_sig)
+            meta = dict(old.get("meta") or {})
+            meta["partial_rebuild"] = {"substring": partial, "documents": len(items), "repo_rev": repo_rev()}
+            findings.save_baseline(bname, old["universe_hash"], old.get("repo_rev"), merged, meta=meta)
+            print(f"partial baseline {bname}: {len(items)} documents re-run, {len(case_sig)} violating; baseline now has {len(merged)} violating cases")
+            return 0
         findings.save_baseline(bname, uh, repo_rev(), case_sig, meta={"evals": m["evals"], "counters": m["counters"]})
         # propose known-finding entries: one per atomic mechanism, shortest witness
         by_atom = {}
